@@ -61,8 +61,8 @@ INPUT_GLOBS['incl3'] = ['proj/*.py', 'proj/ext/*.py']
 # twins: two unrelated modules that define a class and a function of the same names; only one of the classes carries a C++
 # alias. Whatever a module's text says about 'Vector' must come from that module alone, whichever modules a run regenerates
 TW_A = {
-    'v0': "from rogw.tranp.compatible.cpp.embed import Embed\n\n@Embed.alias('FVector')\nclass Vector:\n\tdef size(self) -> int:\n\t\treturn 1\n\ndef make() -> Vector:\n\treturn Vector()\n",
-    'vS': "from rogw.tranp.compatible.cpp.embed import Embed\n\n@Embed.alias('FVector')\nclass Vector:\n\tdef size(self) -> int:\n\t\treturn 3\n\ndef make() -> Vector:\n\treturn Vector()\n",
+    'v0': "from rogw.tranp.compatible.python.embed import Embed\n\n@Embed.alias('FVector')\nclass Vector:\n\tdef size(self) -> int:\n\t\treturn 1\n\ndef make() -> Vector:\n\treturn Vector()\n",
+    'vS': "from rogw.tranp.compatible.python.embed import Embed\n\n@Embed.alias('FVector')\nclass Vector:\n\tdef size(self) -> int:\n\t\treturn 3\n\ndef make() -> Vector:\n\treturn Vector()\n",
 }
 TW_B = {
     'v0': 'class Vector:\n\tdef size(self) -> int:\n\t\treturn 2\n\ndef make() -> Vector:\n\treturn Vector()\n',
